@@ -14,6 +14,7 @@ import (
 	"net/http/httptest"
 	"net/url"
 	"sort"
+	"strconv"
 	"strings"
 	"sync"
 	"time"
@@ -29,10 +30,14 @@ type fakeS3 struct {
 	srv     *httptest.Server
 	log     []string       // "METHOD key"
 	failGet map[string]int // key -> status to answer instead (fault injection)
+	// putBudget: when >= 0, the number of further PUTs that succeed; once it is used up every PUT is answered with
+	// putFailStatus (507: the backend is full; 403: the credentials expired; 503: an outage longer than the retries)
+	putBudget     int
+	putFailStatus int
 }
 
 func newFakeS3() *fakeS3 {
-	f := &fakeS3{objects: map[string][]byte{}, failGet: map[string]int{}}
+	f := &fakeS3{objects: map[string][]byte{}, failGet: map[string]int{}, putBudget: -1}
 	f.srv = httptest.NewServer(http.HandlerFunc(f.serve))
 	return f
 }
@@ -147,6 +152,15 @@ func (f *fakeS3) serve(w http.ResponseWriter, r *http.Request) {
 		http.ServeContent(w, r, "", time.Date(2020, 1, 1, 0, 0, 0, 0, time.UTC), bytes.NewReader(b))
 	case http.MethodPut:
 		b, _ := io.ReadAll(r.Body)
+		b = awsUnchunk(r, b)
+		if f.putFailStatus != 0 && f.putBudget == 0 {
+			code := map[int]string{507: "XMinioStorageFull", 403: "AccessDenied", 503: "SlowDown"}[f.putFailStatus]
+			s3Error(w, f.putFailStatus, code, key)
+			return
+		}
+		if f.putBudget > 0 {
+			f.putBudget--
+		}
 		f.objects[full] = b
 		w.Header().Set("ETag", `"0"`)
 		w.WriteHeader(200)
@@ -156,6 +170,38 @@ func (f *fakeS3) serve(w http.ResponseWriter, r *http.Request) {
 	default:
 		s3Error(w, 405, "MethodNotAllowed", key)
 	}
+}
+
+// awsUnchunk removes the "aws-chunked" framing (`<hex size>;chunk-signature=…\r\n<data>\r\n` … `0;chunk-signature=…`)
+// minio's client puts around the payload of a signed upload over plain HTTP
+func awsUnchunk(r *http.Request, b []byte) []byte {
+	if !strings.HasPrefix(r.Header.Get("X-Amz-Content-Sha256"), "STREAMING-") {
+		return b
+	}
+	var out []byte
+	for len(b) > 0 {
+		i := bytes.Index(b, []byte("\r\n"))
+		if i < 0 {
+			break
+		}
+		head := string(b[:i])
+		if j := strings.IndexByte(head, ';'); j >= 0 {
+			head = head[:j]
+		}
+		n, err := strconv.ParseInt(head, 16, 64)
+		if err != nil || int(n) > len(b)-i-2 {
+			break
+		}
+		out = append(out, b[i+2:i+2+int(n)]...)
+		b = b[i+2+int(n):]
+		if len(b) >= 2 {
+			b = b[2:]
+		}
+		if n == 0 {
+			break
+		}
+	}
+	return out
 }
 
 func (f *fakeS3) put(bucket, key string, b []byte) {
